@@ -285,10 +285,10 @@ func c17Immutable(c *pure.Ctx) {
 		panic(err)
 	}
 	now := b.Now()
-	mkBase := func(started bool, kill string) *execution.Job {
+	mkBase := func(started bool, kill string, terminating bool) *execution.Job {
 		rj := &execution.Job{
 			TypeMeta:   metav1.TypeMeta{APIVersion: "execution.furiko.io/v1alpha1", Kind: "Job"},
-			ObjectMeta: metav1.ObjectMeta{Namespace: "default", Name: "j-" + kill + fmt.Sprint(started)},
+			ObjectMeta: metav1.ObjectMeta{Namespace: "default", Name: "j-" + kill + fmt.Sprint(started) + fmt.Sprint(terminating)},
 			Spec: execution.JobSpec{ConfigName: "jc", OptionValues: `{"s":"v"}`,
 				StartPolicy: &execution.StartPolicySpec{ConcurrencyPolicy: execution.ConcurrencyPolicyEnqueue}},
 		}
@@ -305,6 +305,12 @@ func c17Immutable(c *pure.Ctx) {
 			}
 			j.Spec.Template.Parallelism = &execution.ParallelismSpec{WithCount: pointer.Int64(2), CompletionStrategy: execution.AllSuccessful}
 			j.Spec.Template.RetryDelaySeconds = pointer.Int64(10)
+			if terminating {
+				// deleted by the user, lingering while the controller removes its tasks
+				t := metav1.NewTime(now)
+				j.DeletionTimestamp = &t
+				j.Finalizers = append(j.Finalizers, "execution.furiko.io/delete-dependents-finalizer")
+			}
 			switch kill {
 			case "past":
 				t := metav1.NewTime(now.Add(-time.Minute))
@@ -375,64 +381,66 @@ func c17Immutable(c *pure.Ctx) {
 		_, err := b.Webhooks.Admit(sim.Jobs, "UPDATE", old, upd)
 		return err
 	}
-	for _, started := range []bool{false, true} {
-		for _, kill := range []string{"none", "past", "future"} {
-			old := mkBase(started, kill)
-			bdesc := fmt.Sprintf("started=%v kill=%s", started, kill)
-			// unrelated edits are allowed
-			for _, e := range mutable {
-				c.Eval()
-				if err := update(old, e); err != nil && err != errNoChange {
-					c.Violate("mutable-rejected", fmt.Sprintf("%s edit=%s: rejected: %v", bdesc, e.name, err))
-				}
-			}
-			// every immutable field alone and in pairs, also combined with a harmless edit
-			for i, e := range immutable {
-				c.Eval()
-				c.Nontrivial(bdesc + " " + e.name)
-				err := update(old, e)
-				if err == errNoChange {
-					continue // this edit is a no-op on this base object
-				}
-				if err == nil {
-					c.Violate("immutable-accepted", fmt.Sprintf("%s: update changing %s was accepted", bdesc, e.name))
-				}
-				if err := update(old, mutable[0], e); err == nil {
-					c.Violate("immutable-accepted", fmt.Sprintf("%s: update changing %s together with a label was accepted", bdesc, e.name))
-				}
-				for j := i + 1; j < len(immutable); j++ {
+	for _, terminating := range []bool{false, true} {
+		for _, started := range []bool{false, true} {
+			for _, kill := range []string{"none", "past", "future"} {
+				old := mkBase(started, kill, terminating)
+				bdesc := fmt.Sprintf("started=%v kill=%s terminating=%v", started, kill, terminating)
+				// unrelated edits are allowed
+				for _, e := range mutable {
 					c.Eval()
-					if err := update(old, e, immutable[j]); err == nil {
-						c.Violate("immutable-accepted", fmt.Sprintf("%s: update changing %s and %s was accepted", bdesc, e.name, immutable[j].name))
+					if err := update(old, e); err != nil && err != errNoChange {
+						c.Violate("mutable-rejected", fmt.Sprintf("%s edit=%s: rejected: %v", bdesc, e.name, err))
 					}
 				}
+				// every immutable field alone and in pairs, also combined with a harmless edit
+				for i, e := range immutable {
+					c.Eval()
+					c.Nontrivial(bdesc + " " + e.name)
+					err := update(old, e)
+					if err == errNoChange {
+						continue // this edit is a no-op on this base object
+					}
+					if err == nil {
+						c.Violate("immutable-accepted", fmt.Sprintf("%s: update changing %s was accepted", bdesc, e.name))
+					}
+					if err := update(old, mutable[0], e); err == nil {
+						c.Violate("immutable-accepted", fmt.Sprintf("%s: update changing %s together with a label was accepted", bdesc, e.name))
+					}
+					for j := i + 1; j < len(immutable); j++ {
+						c.Eval()
+						if err := update(old, e, immutable[j]); err == nil {
+							c.Violate("immutable-accepted", fmt.Sprintf("%s: update changing %s and %s was accepted", bdesc, e.name, immutable[j].name))
+						}
+					}
+				}
+				for _, e := range startPolicy {
+					c.Eval()
+					c.Nontrivial(bdesc + " " + e.name)
+					err := update(old, e)
+					if started && err == nil {
+						c.Violate("startpolicy-after-start", fmt.Sprintf("%s: startPolicy edit %s accepted after the Job started", bdesc, e.name))
+					}
+					if !started && err != nil && err != errNoChange {
+						c.Violate("startpolicy-before-start", fmt.Sprintf("%s: startPolicy edit %s rejected before the Job started: %v", bdesc, e.name, err))
+					}
+				}
+				for _, e := range kills {
+					if kill == "none" && e.name == "kill-cleared" {
+						continue
+					}
+					c.Eval()
+					c.Nontrivial(bdesc + " " + e.name)
+					err := update(old, e)
+					if kill == "past" && err == nil {
+						c.Violate("kill-after-passed", fmt.Sprintf("%s: killTimestamp edit %s accepted although it has passed", bdesc, e.name))
+					}
+					if kill != "past" && err != nil && err != errNoChange {
+						c.Violate("kill-before-passed", fmt.Sprintf("%s: killTimestamp edit %s rejected although it has not passed: %v", bdesc, e.name, err))
+					}
+				}
+				c.Sample(map[string]interface{}{"base": bdesc, "immutable_edits": len(immutable)})
 			}
-			for _, e := range startPolicy {
-				c.Eval()
-				c.Nontrivial(bdesc + " " + e.name)
-				err := update(old, e)
-				if started && err == nil {
-					c.Violate("startpolicy-after-start", fmt.Sprintf("%s: startPolicy edit %s accepted after the Job started", bdesc, e.name))
-				}
-				if !started && err != nil && err != errNoChange {
-					c.Violate("startpolicy-before-start", fmt.Sprintf("%s: startPolicy edit %s rejected before the Job started: %v", bdesc, e.name, err))
-				}
-			}
-			for _, e := range kills {
-				if kill == "none" && e.name == "kill-cleared" {
-					continue
-				}
-				c.Eval()
-				c.Nontrivial(bdesc + " " + e.name)
-				err := update(old, e)
-				if kill == "past" && err == nil {
-					c.Violate("kill-after-passed", fmt.Sprintf("%s: killTimestamp edit %s accepted although it has passed", bdesc, e.name))
-				}
-				if kill != "past" && err != nil && err != errNoChange {
-					c.Violate("kill-before-passed", fmt.Sprintf("%s: killTimestamp edit %s rejected although it has not passed: %v", bdesc, e.name, err))
-				}
-			}
-			c.Sample(map[string]interface{}{"base": bdesc, "immutable_edits": len(immutable)})
 		}
 	}
 }
